@@ -180,6 +180,11 @@ def apply_op(b: Built, op: dict) -> str:
             b.objs[op['h']].set_attributes(**{key: decode_value(val, b.objs) for key, val in op['kw'].items()})
         elif k == 'origin_ref':
             b.objs[op['h']].origin_reference = op['value']
+        elif k == 'sul':
+            for key, val in op['kw'].items():
+                setattr(b.df.storage_unit_label, key, val)
+        elif k == 'setname':
+            b.objs[op['h']].parent.set_name = op['value']
         elif k == 'dsname':
             b.objs[op['h']].dataset_name = op['value']
         elif k == 'cast':
